@@ -43,8 +43,8 @@ def main():
             level_note=NOTE,
             technique="explicit TLA+ specification checked by TLC (bounded exhaustive + simulation), bound to the code by spec->impl replay and impl->spec trace validation"))
     m = dict(version=1, setup_cmd="./check setup",
-             hooks=dict(guard="krp_verif", enable="harness/.cargo/config.toml passes --cfg krp_verif; no hook is needed so far: the harness observes through instantiate / execute / query and the crates' public storage readers",
-                        baseline_off_cmd="cd /repo && cargo test --workspace --no-fail-fast --offline", source_commits=[], add_only=True),
+             hooks=dict(guard="krp_verif", enable="harness/.cargo/config.toml sets rustflags --cfg krp_verif for the harness build (path dependencies on /repo); the only hooks are cfg-guarded `pub use` re-exports of private arithmetic helpers (hub math::decimal_division, reward math::*) used by the kernel check; observation of the contracts needs no hook (instantiate / execute / query and the crates' public storage readers)",
+                        baseline_off_cmd="cd /repo && cargo test --workspace --no-fail-fast --offline", source_commits=["8d760b0", "728cb0b"], add_only=True),
              engines=[dict(name="tlc", path="/verif/spec", serves_properties=sorted(plans.PLANS), kind_free_text="TLA+ specification of the six contracts and the chain, TLC model checking / simulation / trace validation; Rust harness executing the real contracts")],
              checks=checks, not_applicable=[],
              notes="Model-based verification with an explicit TLA+ specification (DESIGN.md). Verdicts: exit 0 / exit 1 + VIOLATION line / exit 2 tool error; DIVERGENCE lines are informational (the code does something the specification does not describe, but the property holds on the code's own states). Known findings: known_findings.txt.")
